@@ -2834,6 +2834,18 @@ pub fn c20(c: &Collector, g: &mut Guard) {
         // G0 / G1 hold what was designated: DECSC / DECRC / RIS inside the history are judged too
         &|op| matches!(op, Op::Draw(_) | Op::SaveCursor | Op::RestoreCursor | Op::Reset),
     );
+    // (1b) code points above 255 are not translated, whatever they are: every scalar value
+    crate::props::unicode_sweep(
+        c,
+        "C20",
+        "E4.unicode",
+        vec![
+            vec![Op::DefineCharset("U".into(), "(".into())],
+            vec![Op::DefineCharset("0".into(), "(".into())],
+            vec![Op::DefineCharset("V".into(), ")".into()), Op::ShiftOut],
+        ],
+        (6, 1),
+    );
     // (2b) UTF-8 mode ignores shifts and designators from EVERY charset state, not just the default
     // one (where an executed SI or `ESC ) 0` would change nothing)
     let mut ub = Vec::new();
@@ -2881,6 +2893,7 @@ pub fn c20(c: &Collector, g: &mut Guard) {
     g.need(c, "parser_path_transitions");
     g.need(c, "parser_designated");
     g.need(c, "utf8_from_shifted_states");
+    g.need(c, "unicode_draws");
     g.need(c, "parser_words");
 }
 
